@@ -89,6 +89,11 @@ CHECKS = {
    text="Histories of 1-80 operations (didOpen/didChange by single typed characters, line replacements, whole-text replacements, restore, didClose; on the main file, an imported file and a new file that is not on disk) interleaved with all 13 supported request kinds at 7 kinds of positions (incl. beyond end of line/file, inside multi-byte characters) in open, closed, non-project and non-existing documents. Every request must be answered with the process alive; every returned range must lie inside the current text of the document it names; semantic tokens must decode sorted, non-overlapping, non-empty, inside their line; after the history the last published diagnostics per file and a fixed battery of requests (documentSymbol, semanticTokens, codeLens, workspace/symbol, definition, references, highlight, hover, completion, prepareRename) must equal those of two fresh servers that receive only the final buffers (two, so that an answer that differs between identical fresh servers is reported as nondeterministic rather than blamed on the history).",
    note="Unknown methods and malformed parameters are not sent (the property speaks of supported requests). A request that is not answered within 20 s is inconclusive, never a violation. Response order inside arrays is not compared (sets).",
    ref="§5 C14"),
+ "C19": dict(
+   technique="proptest, model-based request sequences with generated delays against a live debug session (DAP over TCP on the test runner); oracle: reference trace of the uninterrupted run (emulator_6502 driven directly, image and line table from the independent layout model), located through the cycle counter the adapter reports",
+   text="Generated test programs (nested counted loops up to 255x255 iterations, forward branches, subroutines two levels deep, a recursive subroutine, pha/pla inside subroutines, `.loop` blocks and macros invoked several times) are debugged through 2-17 generated operations: setBreakpoints on any code lines (halted and while running, biased towards call sites and subroutine bodies), configurationDone/continue with an optional pause after 0-60 ms, next/stepIn/stepOut, repeated inspection after a delay. At every stop the reported cycle counter locates the machine in the reference trace; registers, flags and evaluate results must equal that trace entry, the frame's lines must contain the line of the true program counter, nothing may change between two inspections, no instruction with a breakpoint may have been executed between resume and stop (or before the end of the test), a stop without pause must be at a breakpoint, and steps must land on the trace entry the uninterrupted run prescribes (next: after the call returns to the same frame; stepOut: first entry of the caller).",
+   note="Thread schedules are not controlled (no scheduling hook was added): races are provoked by generated delays and 16 concurrent sessions, so a run is not a pure function of the seed; every reported violation is a real observation, and what was not observed is not claimed. stepOut outside any subroutine is not judged. A timeout is inconclusive.",
+   ref="§5 C19"),
  "C15": dict(
    technique="proptest over generated programs x one identifier occurrence; oracle: static binding model (documented scoping, validated against the build through the layout model) for the exact edit set, metamorphic build comparison before/after the rename, round trip (rename back)",
    text="For a generated error-free program and one generated identifier occurrence (definition or any component of a use path) a live language server is asked to rename it to a fresh name; where prepareRename offers it, the WorkspaceEdit must touch exactly the occurrences bound to that symbol (none of `super`, equally named symbols, other text), the edited program must assemble to identical bytes and diagnostics, and a second rename back to the old name must restore the original text.",
